@@ -166,9 +166,9 @@ Definition ls_dir : prog (result nat) :=
 
 (* RemoveWithContextAndExclusionPatterns / removeWithExclusionPatterns (no patterns), files.go:716-780 (line numbers as of the tree with the C04/C08 repairs of Rm); [clean] = the
    call of CleanDirWithContextAndExclusionPatterns made when the path is a non-empty directory.  The first operation
-   is the Lstat of the symbolic-link test (never a link here). *)
-Definition rm_with (clean : prog (result unit)) (p : path) : prog (result unit) :=
-  Do (OLstat p) (fun _ =>
+   is the Lstat of the symbolic-link test (never a link here): if it FAILS with anything but "does not exist" the removal
+   fails closed (it is not known whether the path is a link) — files.go:768-773. *)
+Definition rm_body (clean : prog (result unit)) (p : path) : prog (result unit) :=
   e <- exists_ p ;;
   if negb e then Ret (Ok tt) else
   d <- is_dir p ;;
@@ -181,7 +181,9 @@ Definition rm_with (clean : prog (result unit)) (p : path) : prog (result unit) 
   match em2 with Err => Ret Err | Ok isempty2 =>
   if isdir && negb isempty2 then Ret (Ok tt)         (* "some files may have been ignored": returns nil, nothing removed *)
   else Do (ORemove p) (fun r => match r with ROk => Ret (Ok tt) | _ => Ret Err end)
-  end end end end).
+  end end end end.
+Definition rm_with (clean : prog (result unit)) (p : path) : prog (result unit) :=
+  Do (OLstat p) (fun r => match r with ROther => Ret Err | _ => rm_body clean p end).
 
 Definition rm_hb : prog (result unit) := rm_with (Ret (Ok tt)) PHb.
 
